@@ -3,7 +3,7 @@
 //!   id | x M | y M | z M | s M | t M | h M | rx T M | ry T M | rz T M | rxx T M | ryy T M | rzz T M
 //!   swap M | sqrt_swap M | i_swap M | sqrt_i_swap M | u1 L M | u2 P L M | u3 T P L M
 //!   qft M | qft_swapped M
-//!   mul A B | mulassign A B | append A B | pushsingles A B | dgr A | c M A
+//!   mul A B | mulassign A B | append A B | pushsingles A B | pushfront A B | dgr A | c M A
 //!
 //! masks are decimal or 0x-hex, angles are the 16-hex-digit bit pattern of the f64.
 
@@ -63,6 +63,16 @@ pub fn parse<'a, I: Iterator<Item = &'a str>>(t: &mut I) -> Built {
                 if k % 2 == 0 { a.push_back(s.clone()); } else { a *= s.clone(); }
             }
             a
+        }
+        "pushfront" => {
+            // the queue A ++ B assembled from the back: start from B and push A's elements to the front in
+            // reverse order (Deref<VecDeque>::push_front; the ring buffer wraps around)
+            let a = sub!(t);
+            let mut b = sub!(t);
+            for s in a.iter().rev() {
+                b.push_front(s.clone());
+            }
+            b
         }
         "dgr" => { let a = sub!(t); a.dgr() }
         "c" => {
